@@ -1,0 +1,27 @@
+//go:build verif
+
+package availability
+
+// Machine-checked contracts (govc, see /verif/DESIGN.md). Comment-only file.
+
+// ---- C38 ("every configured node validator accepts the node's information" - the availability
+// validator compares what the candidate announces with what the node itself reports): the
+// addresses of the two descriptions are compared with each other - the set the node's answer is
+// looked up in is filled from the EXPECTED description (the first walk over endpoints), the
+// walk that is checked against it is over the description GOT from the node (the second).
+//@ ghost field endpointWalks(x int) int
+//@ callrule c38_descriptions_keep_their_addresses in compareNodeInfos
+//@   property C38
+//@   callee (*netmap.NodeInfo).SetOnline, (netmap.NodeInfo).*, bytes.Equal, fmt.Errorf, dynamic:*
+//@   except (netmap.NodeInfo).NetworkEndpoints
+//@   pureeffect
+//@ callrule c38_endpoint_walks in compareNodeInfos
+//@   property C38
+//@   callee (netmap.NodeInfo).NetworkEndpoints
+//@   assigns endpointWalks
+//@   requires [set_is_filled_from_the_expected_description] endpointWalks(0) == 0 ==> samearray(self.addrs, niExp.addrs) && len(self.addrs) == len(niExp.addrs)
+//@   requires [answer_of_the_node_is_checked_against_it] endpointWalks(0) == 1 ==> samearray(self.addrs, niGot.addrs) && len(self.addrs) == len(niGot.addrs)
+//@   defines endpointWalks(0) == old(endpointWalks(0)) + 1
+//@ func compareNodeInfos
+//@   property C38
+//@   valid endpointWalks(0) == 0
